@@ -20,6 +20,20 @@ PROPS = {
         "explanation": "Lean theorems state the documented effect and totality of every token step for all sequences and parameters; "
                        "the model is tied to src/config/processing.rs and src/config/decoding.rs by running both on the same generated cases.",
     },
+    "C08": {
+        "level": "proof",
+        "rule": "id sequences over the full u32 space (valid vocabulary ids, special ids, u32::MAX, ids just past the vocabulary, "
+                "random u32, empty and 10^5-long sequences in thorough) x both modes x generated definitions (with / without "
+                "continuation prefix, control / priority / unknown specials, vocabulary ids shadowing special ids, with / without "
+                "clean-up steps) and the 24 shipped models. Non-trivial: the sequence is non-empty; distinct = distinct request lines.",
+        "trusted_base": CORE_TB + ["modelled, not verified: hashbrown maps as finite maps (last insertion wins); "
+                                   "fancy-regex replace_all for a regex Decoding::Replace (oracle table)"],
+        "assumptions": ["Decoder::new builds its maps by plain insertion (modelled in Kitoken.Model.Init.mkDecoder, tied by correspondence)"],
+        "explanation": "Lean theorems: decoding equals in-order concatenation (flatMap) of the ids' byte strings, is a homomorphism without "
+                       "prefix, reports the first invalid id, never panics, filters control tokens iff special decoding is off, vocabulary "
+                       "shadows specials, and prefix-mode spacing is characterized exactly; the model is tied to src/decoder.rs and "
+                       "Kitoken::decode by differential runs.",
+    },
 }
 
 
@@ -28,6 +42,8 @@ def nontrivial(prop, request, impl):
     op = parts[0]
     if op == "PROC":
         return impl != "OK " + parts[2]
+    if op == "DEC":
+        return parts[3] != "-"
     if op == "DECSTEP":
         return impl != "OK " + parts[2]
     return True
